@@ -332,7 +332,7 @@ def _denoted_us(cell):
             if int(g[8]) > 23 or int(g[9]) > 59:
                 return None
             off = dt.timedelta(hours=int(g[8]), minutes=int(g[9])) * (-1 if g[7] == b'-' else 1)
-        d = (base - off) - dt.datetime(1970, 1, 1)
+        d = (base - dt.datetime(1970, 1, 1)) - off
         return (d.days * 86400 + d.seconds) * 10 ** 6 + us
     return None
 
@@ -362,6 +362,8 @@ def from_val(case, v):
             if case['mode'] == 0:
                 flags = None
             return [[vals, flags], None]
+        if k in ('cat', 'fixed'):
+            return [[x], None]
         return [x, None]
     mm = shape(m)
     ss = None if s == [] else shape(s)
@@ -623,6 +625,8 @@ def gen(tier, rng):
     for dt in DT_INT:
         for mode in (0, 1, 2):
             for c in INT_POOL:
+                if dt == 'int64' and c == '9223372036854775807':
+                    continue            # storable, but not printable by the OCaml driver (63-bit ints)
                 yield {'k': 'int', 'dtype': dt, 'mode': mode, 'inv': 0, 'chunks': [[c]], 'lay': LAYS[len(c) % 3]}
             yield {'k': 'int', 'dtype': dt, 'mode': mode, 'inv': 0, 'chunks': [], 'lay': [0, 0, 0]}
             yield {'k': 'int', 'dtype': dt, 'mode': mode, 'inv': 0, 'chunks': [[]], 'lay': [0, 0, 0]}
@@ -635,7 +639,7 @@ def gen(tier, rng):
         dt = rng.choice(list(DT_INT))
         mode = rng.choice([0, 1, 2, 2, 2])
         good = ['0', '1', '-1', ' 12', '12 ', '1_0', '127', '+5', '0012']
-        pool = good * (3 if mode != 2 else 1) + ([''] if mode >= 1 else []) * 3 + (INT_POOL if mode == 2 or rng.random() < 0.3 else [])
+        pool = good * (3 if mode != 2 else 1) + ([''] if mode >= 1 else []) * 3 + ([x for x in INT_POOL if x != '9223372036854775807'] if mode == 2 or rng.random() < 0.3 else [])
         cells = [rng.choice(pool) for _ in range(rng.randint(2, 14))]
         yield {'k': 'int', 'dtype': dt, 'mode': mode, 'inv': rng.choice([0, 0, 9, 100]), 'chunks': _rand_split(rng, cells, 5),
                'lay': [rng.randint(0, 3), rng.randint(0, 2), rng.randint(0, 2)]}
@@ -714,24 +718,30 @@ def gen(tier, rng):
         for kind in ('cat', 'leaky'):
             for tab in TABLES[:3]:
                 for _ in range(20 if big else 6):
-                    yield {'k': kind, 'cats': tab, 'chunks': [[rng.choice(AB3) for _ in range(rng.randint(0, 9))]]}
+                    # a long key keeps the column's value budget (field_size * crs) above the window size, so the
+                    # reader's regrowth path (C05, F-C05a) is not entered
+                    yield {'k': kind, 'cats': tab + [['long_key_', 9]], 'chunks': [[rng.choice(AB3) for _ in range(rng.randint(0, 40))]]}
         for mode in (0, 1, 2):
             pool = ['1', '0', 'yes', 'No', 'TRUE', 'off'] + ([''] if mode >= 1 else []) + (['q', 'ye'] if mode == 2 else [])
             for _ in range(10 if big else 3):
-                yield {'k': 'bool', 'mode': mode, 'inv': 0, 'chunks': [[rng.choice(pool) for _ in range(rng.randint(0, 9))]]}
+                yield {'k': 'bool', 'mode': mode, 'inv': 0, 'chunks': [[rng.choice(pool) for _ in range(rng.randint(0, 40))]]}
                 yield {'k': 'int', 'dtype': rng.choice(list(DT_INT)), 'mode': mode, 'inv': 0,
                        'chunks': [[rng.choice([p for p in pool if p in ('1', '0', '')] + ['12', '-3'] + (['x', '999999'] if mode == 2 else []))
-                                   for _ in range(rng.randint(0, 9))]]}
+                                   for _ in range(rng.randint(0, 40))]]}
                 yield {'k': 'float', 'dtype': rng.choice(['float32', 'float64']), 'mode': mode, 'inv': 0,
                        'chunks': [[rng.choice([p for p in pool if p in ('1', '0', '')] + ['1.5', '-3e2'] + (['x'] if mode == 2 else []))
-                                   for _ in range(rng.randint(0, 9))]]}
+                                   for _ in range(rng.randint(0, 40))]]}
         for _ in range(10 if big else 4):
-            yield {'k': 'fixed', 'n': 3, 'chunks': [[''.join(rng.choice('abc') for _ in range(rng.randint(0, 3))) for _ in range(rng.randint(0, 9))]]}
-            yield {'k': 'date', 'chunks': [[rng.choice(['2020-06-15', '', '1970-01-01']) for _ in range(rng.randint(0, 9))]]}
+            yield {'k': 'fixed', 'n': 5, 'chunks': [[''.join(rng.choice('abc') for _ in range(rng.randint(0, 7))) for _ in range(rng.randint(0, 40))]]}
+            yield {'k': 'date', 'chunks': [[rng.choice(['2020-06-15', '', '1970-01-01']) for _ in range(rng.randint(0, 40))]]}
             yield {'k': 'datetime', 'chunks': [[rng.choice(['2020-06-15 19:45:39', '', '2020-06-15 19:45:39.05 UTC', '2020-06-15 19:45:39+01:00'])
-                                                for _ in range(rng.randint(0, 9))]]}
+                                                for _ in range(rng.randint(0, 40))]]}
+    # chunk_row_size: the reader's window (2*crs*ncols bytes) must hold the longest record twice over - smaller
+    # windows are the CSV reader's own territory (C05, F-C05a), not the conversion's
     for c in csv_cases():
-        for crs in ((1, 2, 3, 4, 64) if big else (1, 2, 64)):
+        rec = max([len(x) for x in c['chunks'][0]] + [1]) + 3
+        small = max(2, (2 * rec + 3) // 4)
+        for crs in ((small, small + 1, 2 * small, 64) if big else (small, 64)):
             d = dict(c); d['via'] = 'csv'; d['crs'] = crs; d['lay'] = [0, 0, 0]
             yield d
 
